@@ -278,3 +278,10 @@ def select(seq, idx):
     for j in range(n - 2, -1, -1):
         r = z3.If(ei == j, to_z3(seq[j]), r)
     return wrap_num(r)
+
+
+def spow(x, n):
+    """x ** n (symbolic exponents through the pow function of 5.3)"""
+    if isinstance(x, Sym) or isinstance(n, Sym):
+        return S.sym_pow(x, n)
+    return x ** n
